@@ -130,10 +130,10 @@ class Model:
 
 def real_apply(nodes, op):
     try:
-        with time_limit(10):
+        with time_limit(30):
             return _real_apply(nodes, op)
     except CaseTimeout:
-        return "EXC Timeout: edit did not return within 10 s"
+        return "EXC Timeout: edit did not return within 30 s"
 
 
 def _real_apply(nodes, op):
@@ -179,10 +179,10 @@ QUERY_NAMES = ("a", "b", "zz")
 def query_diff(nodes, m, full=True):
     """-> (query name, detail) or None; a query that does not return within the watchdog is reported as such"""
     try:
-        with time_limit(10):
+        with time_limit(30):
             return _query_diff(nodes, m, full)
     except CaseTimeout:
-        return "does-not-terminate", "a search query did not return within 10 s (parent links form a cycle?)"
+        return "does-not-terminate", "a search query did not return within 30 s (parent links form a cycle?)"
 
 
 def _query_diff(nodes, m, full=True):
@@ -266,7 +266,7 @@ def _query_diff(nodes, m, full=True):
 def warm(nodes, names):
     """run the read-only queries once without judging them: results must not be remembered across later edits"""
     try:
-        with time_limit(10):
+        with time_limit(30):
             for n in nodes:
                 for nm in sorted(set(names)):
                     n.find_child(nm)
